@@ -211,7 +211,7 @@ def transmitted(schema, att, value, locs, typed=True, top=True):
                 out[name] = None
         if loc in ("cookie", "path") and out.get(name) == "":
             raise Skip("empty string in " + loc)
-        if loc in ("query", "header") and out.get(name) in ("", []):
+        if loc in ("query", "header") and out.get(name) in ("", [], {}):
             out[name] = None
         if out.get(name) is not None:
             out[name] = transmitted(schema, fa, out[name], {}, typed, False)
@@ -807,6 +807,11 @@ def assembly_tie(c):
             first = msg.splitlines()[0] if msg else a
             c.fail("assembly/emitted-code:" + re.sub(r"[0-9]+", "N", first)[:70], "codegen.ValidationCode emitted code the reader rejects: " + first[:300],
                    input={"kind": "assembly", "line": op}, expected="statements of the known shapes carrying the designed pattern / format", actual=msg[:1500])
+            continue
+        if op.startswith("vmerge "):
+            c.hist("assembly", "ValidationExpr.Merge")
+            if a != b:
+                differ.append((op, a, b))
             continue
         if op.startswith("hasval "):
             c.hist("assembly-hasValidations", b)
